@@ -356,7 +356,11 @@ def judgeMeta (a b : NGF.NginxEval.Config) (s : S) (cap : Nat) : Nat × List Fai
       let groupVar (o : NOut) : Bool := match o with
         | .confError m => m.startsWith "variable $group_"
         | _ => false
-      let sig := if isolationFlip then "C02:https-sni-covered-by-listener-but-no-server-closed"
+      -- the difference disappears when the gRPC rewrite is taken out of the non-gRPC locations of both
+      let xR := normN (NGF.NginxEval.evalRequest { a with http := dropGrpcRewrite a.http } (toNReq r))
+      let yR := normN (NGF.NginxEval.evalRequest { b with http := dropGrpcRewrite b.http } (toNReq r))
+      let sig := if xR == yR then "C02:http-rule-in-server-with-grpc-rule-gets-grpc-internal-location"
+        else if isolationFlip then "C02:https-sni-covered-by-listener-but-no-server-closed"
         else if sameName && (groupVar x || groupVar y) then "C02:http-grpc-same-name-share-backend-group"
         else if flagOnly then "C02:http-and-grpc-rules-on-one-path-share-the-grpc-flag"
         else if orderDependent.contains sx then sx else if orderDependent.contains sy then sy else "C02:noise-changes-outcome"
